@@ -483,10 +483,11 @@ def run_curve(case):
                     bounds, lc = fem.dof.uniaxial(top, clamped=False, move=0.0, axis=0, sym=True)
                     parts = [vals] if split is None else [vals[:split], vals[split:]]
                     steps = [fem.Step([body], ramp={bounds["move"]: list(pt)}, boundaries=bounds) for pt in parts]
-                    seen = []
+                    seen, iters_ = [], []
 
-                    def cb(j, i, substep, seen=seen):
+                    def cb(j, i, substep, seen=seen, iters_=iters_):
                         seen.append(float(substep.x[0].values[bounds["move"].points[0], 0]))
+                        iters_.append(int(substep.iterations))
 
                     job = fem.CharacteristicCurve(steps=steps, boundary=bounds["move"], callback=cb)
                     job.evaluate(verbose=False, **(dict(x0=top) if usex0 else {}))
@@ -506,6 +507,16 @@ def run_curve(case):
                         for k in range(i):
                             if vals[i] == vals[k] and abs(ys[i] - ys[k]) > 1e-6 * max(abs(ys[i]), 1e-3):
                                 c.bad(sub + f"/force{k},{i}", "equal prescribed displacement gives equal recorded force (elastic body)", [ys[k], ys[i]], "equal", 1e-6)
+                    # every substep starts from the previous converged state: a substep that repeats the load level of its
+                    # predecessor starts in equilibrium (one Newton iteration), and the iteration counts do not depend on whether
+                    # the unknowns live in the body's own container or in a separate top-level container x0
+                    for i in range(1, n):
+                        if vals[i] == vals[i - 1] and iters_[i] != 1:
+                            c.bad(sub + f"/restart-from-converged/substep{i}", "a substep that repeats the previous load level starts from the converged state (one iteration)", iters_[i], 1)
+                    ikey = f"hist={list(hist)}/split={split}"
+                    if ikey in c.seen and c.seen[ikey] != iters_:
+                        c.bad(sub + "/iterations-own-vs-x0", "Newton iterations per substep: own container vs separate top-level container x0", iters_, c.seen[ikey])
+                    c.seen[ikey] = list(iters_)
                     c.nontrivial.append(sub)
                     c.seen[sub] = 1
     return c.result(dict(case=case["key"]))
